@@ -11,6 +11,7 @@ Bytes are `Nat`s; `IsBytes s` says every element is < 256.
 -/
 import Golib.Proof.C07Round
 import Golib.Proof.C07Literal
+import Golib.Proof.C07Utf16
 
 namespace Golib.C07
 
@@ -73,6 +74,25 @@ theorem c07_hex_roundtrip (s : Bytes) (hs : IsBytes s) :
       parseToString hexBody out = .ok s := by
   obtain ⟨out, hf, hl, hp⟩ := hex_fun_roundtrip s hs
   exact ⟨out, hf, hl, by rw [parseToString_eq hex_bodySpec, hp]⟩
+
+/-- `UnicodeParse(UnicodeFormat(s)) = s` for every valid UTF-8 string (`Utf8.valid` is the
+model of `utf8.Valid`). -/
+theorem c07_unicode_roundtrip (s : Bytes) (hv : Utf8.valid s = true) :
+    ∃ out, unicodeFormat s = some out ∧ parseToString unicodeBody out = .ok s := by
+  obtain ⟨out, hf, hp⟩ := unicode_fun_roundtrip s hv
+  exact ⟨out, hf, by rw [parseToString_eq unicode_bodySpec, hp]⟩
+
+/-- `Utf16Parse(Utf16Format(s)) = s` for every valid UTF-8 string (surrogate pairs above
+U+FFFF are re-joined). -/
+theorem c07_utf16_roundtrip (s : Bytes) (hv : Utf8.valid s = true) :
+    ∃ out, utf16Format s = some out ∧ parseToString utf16Body out = .ok s := by
+  obtain ⟨out, hf, hp⟩ := utf16_fun_roundtrip s hv
+  exact ⟨out, hf, by rw [parseToString_eq utf16_bodySpec, hp]⟩
+
+/-- Non-vacuity: valid UTF-8 with all four length classes ("aé日😀"). -/
+example : Utf8.valid [97, 195, 169, 230, 151, 165, 240, 159, 152, 128] = true := by decide
+example : utf16Format [240, 159, 152, 128] =
+    some [92, 117, 68, 56, 51, 68, 92, 117, 68, 69, 48, 48] := by decide
 
 /-- Non-vacuity: a byte string with a backslash, a NUL and 0xFF is `IsBytes`; a concrete run. -/
 example : IsBytes [92, 0, 255, 65] := by unfold IsBytes; decide
